@@ -870,6 +870,20 @@ class Evaluator:
         bound = []
         guards = []
         saved = dict(st.env)
+        # lint: a quantifier must not re-bind the variable of an enclosing quantifier (string templates make this capture easy to write
+        # and the resulting clause silently means something else)
+        qstack = getattr(self, '_qvars', None)
+        if qstack is None:
+            qstack = self._qvars = []
+        mine = set()
+        for comp_ in node.generators:
+            for n_ in ast.walk(comp_.target):
+                if isinstance(n_, ast.Name):
+                    mine.add(n_.id)
+        clash = [n_ for n_ in mine if any(n_ in s_ for s_ in qstack)]
+        if clash and st.spec:
+            raise Unsupported('contract text: quantifier re-binds %s, already bound by an enclosing quantifier (variable capture)' % sorted(clash))
+        qstack.append(mine)
         st.spec += 1
         tmp_marks = []
 
@@ -905,6 +919,7 @@ class Evaluator:
                     guards.append(self.truth(self.ev(cond, st), st))
             body = self.truth(self.ev(node.elt, st), st)
         finally:
+            qstack.pop()
             st.spec -= 1
             st.env = saved
             for g in tmp_marks:
